@@ -88,6 +88,9 @@ def dags(thorough=False):
     out['chain3'] = [SCell(bits_of('r', 8), [SCell(bits_of('m', 9), [l1])])]
     shared = SCell(bits_of('shared', 40))
     out['diamond'] = [SCell(bits_of('d', 16), [SCell(bits_of('x', 7), [shared]), SCell(bits_of('y', 7), [shared])])]
+    # a shared cell that ends the cell data of a 64..127-byte bag: its doubled index entry (cache bits) is in the upper half of a one-byte field
+    sh2 = SCell(bits_of('shared2', 80))
+    out['diamond-payload100'] = [SCell(bits_of('dp', 16), [SCell(bits_of('dx', 300), [sh2]), SCell(bits_of('dy', 296), [sh2])])]
     out['dup-leaves'] = [SCell(bits_of('d2', 16), [SCell(bits_of('same', 24)), SCell(bits_of('same', 24))])]
     x = SCell(bits_of('deep', 30))
     out['shared-later'] = [SCell(bits_of('r2', 5), [x, SCell(bits_of('y2', 5), [x])])]
